@@ -1,7 +1,7 @@
 import corpus
 
-PLAN_QUICK = [('ctx', ['v1', 'v4']), ('exc', ['v1', 'v0', 'v4', 'lazy1'])]
-PLAN_THOROUGH = [('ctx', ['v1', 'v4', 'lazy1']), ('exc', ['v1', 'v0', 'v4', 'lazy1', 'nounw1']), ('act', ['v4'])]
+PLAN_QUICK = [('exc', ['mif4']), ('ctx', ['mif1']), ('ctx', ['v1', 'v4']), ('exc', ['v1', 'v0', 'v4', 'lazy1'])]
+PLAN_THOROUGH = [('exc', ['mif4', 'mif1']), ('ctx', ['mif1', 'mif4']), ('conv', ['mif1']), ('ctx', ['v1', 'v4', 'lazy1']), ('exc', ['v1', 'v0', 'v4', 'lazy1', 'nounw1']), ('act', ['v4'])]
 
 
 def units(tier, seed):
@@ -18,7 +18,7 @@ SPEC = {
     "units": units,
     "finish": {
         "rule": "cases = (grammar, input, configuration) over grammars with must/if_must/if_must_else/opt_must/star_must/list_must/raise/try_catch_* and throwing actions (std-derived and non-std exception types) nested in predicates, repetitions and choices. Oracle: exception kind, blamed rule (message), nesting depth and try_catch conversion must equal the reference interpreter's; the position must lie inside the failed attempt observed by the wrapper, be the position function of the prefix, and what() must be source:line:column: message; foreign exceptions must arrive with the serial number they were thrown with. Non-trivial: reference needed more than 3 steps.",
-        "floors": {'run:parse_error': 1000, 'run:foreign-exception': 50, 'hook:raise': 1000, 'names:default-message': 38, 'names:custom-message': 4},
+        "floors": {'run:parse_error': 1000, 'run:foreign-exception': 50, 'hook:raise': 1000, 'hook:must_if-raise': 500, 'names:default-message': 38, 'names:custom-message': 4},
         "assumptions": ["reference interpreter's evaluation order is the PEG evaluation order"],
     },
 }
